@@ -332,4 +332,39 @@ theorem backoff_pinned_small_period_cex :
   simp only [backoffAt, backoffNext, cap_pinned, minBackoff] at *
   omega
 
+/-! ### how a run ends: a panic is a failed run
+
+`Loop::start` runs the updater job in a task of its own and joins it through `handle_task`
+(task.rs): `Ok(Ok(()))` is a success; an `Err` returned by the job AND a `JoinError` (the task
+panicked, in any part of the run — connection set-up, compare, load) are both a failed run. So the
+event a run contributes to the timeline is `runDone t false` in both cases, and every theorem above
+about failed runs is about panicking runs as well. (Awaiting the job in place instead would let the
+panic unwind through the loop: no retry, no further run, no signal handling — the daemon is gone.)
+The correspondence run scripts panicking runs (`x=` indices of the daemon op) next to failing ones. -/
+
+inductive JobEnd where
+  | ok | err | panicked
+  deriving DecidableEq, Repr
+
+/-- `handle_task(tokio::spawn(job))` -/
+def JobEnd.success : JobEnd → Bool
+  | .ok => true
+  | _ => false
+
+def doneEv (t : Nat) (e : JobEnd) : Ev := .runDone t e.success
+
+theorem panic_is_a_failed_run (t : Nat) : doneEv t .panicked = doneEv t .err := rfl
+
+/-- the retry after a run that panicked comes after exactly the back-off delay, like after any failure -/
+theorem retry_after_panic (c : Cfg) (p : Nat) (evs pre post : List Ev) (t₁ t₂ : Nat)
+    (h : trace c p init evs = pre ++ doneEv t₁ .panicked :: .tick t₂ :: post) :
+    t₂ = t₁ + backoffAt c p (streak pre) :=
+  retry_delay_eq c p evs pre post t₁ t₂ h
+
+/-- a daemon whose first two runs panic: retries at 60 s and 180 s, and SIGTERM still ends it -/
+example :
+    trace .fixed 3600000 init
+      [.tick 0, doneEv 5 .panicked, .tick 60005, doneEv 60010 .panicked, .tick 180010]
+      = [.tick 0, .runDone 5 false, .tick 60005, .runDone 60010 false, .tick 180010] := by decide
+
 end Daemon
